@@ -291,6 +291,13 @@ void check_single(Mat<T, N, N> const &a, int const mode, Vec<T, N> const &v, T c
     vmat<T, N, N> w2{view_storage<T, N * N>(buf2.data())};
     w2 *= w2.storage()[0];
     if (to_arr(s2) != r_scale(a, a[0]) || buf2 != r_scale(a, a[0])) verif::fail("matrix::operator*=|scalar-aliases-an-element|" + L, show_arr(a, N) + " *= its own first element");
+    // the right operand is the matrix itself
+    smat<T, N, N> s3(make_smat<T, N, N>(a));
+    s3 += s3;
+    smat<T, N, N> s4(make_smat<T, N, N>(a));
+    s4 -= s4;
+    Mat<T, N, N> zero{};
+    if (to_arr(s3) != r_add<T, N, N>(a, a) || to_arr(s4) != zero) verif::fail("matrix::operator+=,-=|operand-is-the-matrix-itself|" + L, show_arr(a, N) + " += / -= itself");
   }
   // map, structure_cast
   {
